@@ -174,6 +174,9 @@ def run(prop_id, tier, seed, replay=None):
     consts = dict(CONFIGS[(prop_id, tier)])
     consts.update(CODE_VERSION)
     sc = core.scratch("imp")
+    # the JVMs of this check (TLC, ObsCheck per chunk) need < 2 GB; without a cap they grow to a quarter of the
+    # machine's memory, next to the other checks
+    os.environ.setdefault("_JAVA_OPTIONS", "-Xmx3g")
     try:
         if replay:
             pf = os.path.join(sc, "paths.ndjson")
@@ -181,7 +184,7 @@ def run(prop_id, tier, seed, replay=None):
             tlc, g, paths, unreach, files = family._NoTLC(), None, [0], 0, [pf]
         else:
             tlc = core.run_tlc([SPEC], "Import", consts, workers=1, invariants=["TypeOK"],
-                               workdir=os.path.join(sc, "tlc"), timeout=3000)
+                               workdir=os.path.join(sc, "tlc"), timeout=3000, heap="3g")
             if not tlc.ok:
                 raise core.MachineryError("TLC on Import failed: %s\n%s" % (tlc.error, tlc.stdout_tail[-3000:]))
             g = LeanGraph.load(tlc)
